@@ -18,20 +18,20 @@ CHECKS = {
             "cleared on every normal and exceptional exit; parameter validation precedes all work; a failed legalization exports nothing.",
             "Trusted: clang 14 front end; every call is treated as may-throw unless declared noexcept. Not decided: user callback behaviour.",
             "DESIGN.md 2/C10"),
-    "C19": ("interval evaluation under dominating guards (bounded subscripts, assert-precondition discharge), dominance of length/index validation over member writes",
+    "C19": ("interval evaluation under dominating guards (bounded subscripts, assert-precondition discharge), dominance of length/index validation over member writes, finite-domain constant folding of the parameter constructors and checks (efforts 1..9)",
             "Input validation decided structurally for all argument values: array subscripts and asserting helpers are reached only under throwing "
-            "range guards; every vector length and pin index is validated by throw before any member is written; params.check() comes first.",
-            "Trusted: clang 14 front end; interval evaluator in cqverif/intervals.py. Not decided: exception type/message; row geometry validation.",
+            "range guards; every vector length and pin index is validated by throw before any member is written; params.check() comes first; the parameters constructed for each effort 1..9 reach no throw of their own check (binary32/binary64 kept apart).",
+            "Trusted: clang 14 front end; interval evaluator in cqverif/intervals.py; constant folder in cqverif/consteval.py (libm semantics of round/exp/log as in Python's math). Not decided: exception type/message; row geometry validation.",
             "DESIGN.md 2/C19"),
-    "C08": ("zero-instance rules with positive controls (static storage, mutable/const_cast, entropy sources, clock taint), async-launch discipline, unordered-iteration and read-back reachability analysis",
+    "C08": ("zero-instance rules with positive controls (static storage, const_cast, mutable members judged by the cache discipline, entropy sources, clock taint), async-launch discipline, unordered-iteration and read-back reachability analysis",
             "The structural conditions that make placement a pure function of (circuit, parameters, seed) and the two asynchronous solves race-free are decided for the whole library: "
-            "no mutable static state, no const-bypass, one engine seeded from the parameters and consumed by its owner thread, async callees are const on immutable shared data with copied arguments and are joined, "
+            "no mutable static state, no const-bypass, mutable members only as caches that every writer of their inputs resets, one engine seeded from the parameters and consumed by its owner thread, async callees are const on immutable shared data with copied arguments and are joined, "
             "unordered iteration never reaches a result, and exported coordinates are never read back.",
             "Trusted: clang 14 front end; std call classification tables. Not decided: bitwise floating-point reproducibility across machines.",
             "DESIGN.md 2/C08"),
-    "C17": ("qualifier typing: floating-point weight path + homogeneity-degree type system over the matrix builders, guard dominance for the regulariser, argument provenance",
+    "C17": ("qualifier typing: floating-point weight path + homogeneity-degree type system over the matrix builders (members and reassigned parameters included), scale-free comparisons and solver settings, guard dominance for the regulariser, argument provenance",
             "The scaling clause is decided by typing for every net list: every matrix coefficient and right-hand-side increment is homogeneous of degree 1 in (weights, penalties), "
-            "the only degree-0 term is confined to rows no weighted term mentions, weights are stored and forwarded as floats without truncation or defaulting.",
+            "no comparison mixes degrees and no solver setting depends on the weight scale, the only degree-0 term is confined to rows no weighted term mentions, weights are stored and forwarded as floats without truncation or defaulting.",
             "Trusted: clang 14 front end; degree seeds (netWeight()/penaltyStrength/weight parameters). Not decided: least-squares optimality (solver numerics).",
             "DESIGN.md 2/C17"),
     "C09": ("exhaustive table extraction (symbolic constant propagation over the orientation dispatch), structural loop-coverage / must-pass-through analysis, who-may-write",
@@ -49,24 +49,25 @@ CHECKS = {
             "The round-trip clause is decided by its structural conditions: the writer emits every record, raw geometry that the reader inverts exactly, and orientations by name.",
             "Trusted: clang 14 front end; the pybind11 stub's fidelity to the call shapes module.cpp uses; Python's ast module. Not decided: stream formatting of values outside the property's domain.",
             "DESIGN.md 2/C20"),
-    "C14": ("index-domain qualifier typing of the 1-D transportation preprocessing and its callers",
+    "C14": ("index-domain qualifier typing of the 1-D transportation preprocessing and its callers, guard dominance of the zero filter, accumulator-width rule",
             "The memory-safety clause of the rounding is decided for every instance: each subscript of the sorter's conversions uses an index of the vector's own domain "
-            "(original vs sorted sources/sinks) and the returned assignment has one original sink per original source.",
+            "(original vs sorted sources/sinks) and the returned assignment has one original sink per original source; zero supplies/demands never reach the solver; totals are folded in 64 bits.",
             "Trusted: clang 14 front end; the domain seeds in rules/c14.json. Not decided: optimality/validity of the plan; numeric scan bounds inside the solver.",
             "DESIGN.md 2/C14"),
-    "C07": ("producer/consumer bit-width contradiction rules, triaged inventory of 32-bit products, may-be-minus-one taint to subscripts, interval proof of loop steps; positive controls",
-            "Structural no-overflow / no-crash clauses decided for the whole library: no int product is widened after the fact, no 64-bit cost is narrowed, every 32-bit product of two variables carries a bound argument, "
+    "C07": ("producer/consumer bit-width contradiction rules, implicit 64->32 narrowing and fold-accumulator width rules, triaged inventory of 32-bit products (rename-proof shape keys), may-be-minus-one taint to subscripts, interval proof of loop steps; positive controls",
+            "Structural no-overflow / no-crash clauses decided for the whole library: no int product is widened after the fact, no 64-bit cost, area or demand is implicitly narrowed, folds accumulate at element width, every 32-bit product of two variables carries a bound argument, "
             "last-element indices cannot reach a subscript for an empty container, computed loop steps are non-zero.",
             "Trusted: clang 14 front end; the triage tables in rules/c07.json. Declined: general out-of-bounds freedom, assertion unreachability, division by zero, termination of numeric iterations.",
             "DESIGN.md 2/C07"),
-    "C15": ("edge-dominance analysis of the obstacle filter, qualifier typing (geometry frame, axis, min/max argument roles), soundness check of obstacle skips, row provenance",
+    "C15": ("edge-dominance analysis of the obstacle filter, qualifier typing (geometry frame, axis, min/max argument roles), soundness check of obstacle skips, slicing-direction agreement, row provenance",
             "Decides which cells count as obstacles (fixed AND obstruction, placed footprint, extras kept), that every row is reduced by every obstacle and only full-height segments with the row's orientation are emitted, "
             "that geometry helpers never mix frames or axes, and that every algorithm builder consumes the obstruction-free rows.",
             "Trusted: clang 14 front end; name-based axis seeds (min/max, X/Y, width/height). Declined: the set equality itself (semantics of boost::polygon's set difference).",
             "DESIGN.md 2/C15"),
-    "C18": ("who-may-write + edge-dominance guard analysis; path counting in the per-cell loop",
-            "Frame clause only: expansion functions write nothing but cellWidth_ and only under the movable test on the same index; computeCellExpansion is pure, gives each cell one factor, 1 for fixed cells and a running maximum from 1 otherwise.",
-            "Trusted: clang 14 front end. Declined: all density / rounding arithmetic; completeness of a non-trivial region scan.",
+    "C18": ("who-may-write + edge-dominance guard analysis; path counting in the per-cell loop; inequality proving from dominating guards (order prover) for the non-narrowing clause; container-use classification; derived-state analysis",
+            "Frame and non-narrowing clauses: expansion functions write nothing but cellWidth_ and only under the movable test on the same index; the stored width is proved >= the old width (or the factor >= 1) from the dominating guards; "
+            "computeCellExpansion is pure, gives each cell one factor, 1 for fixed cells and a running maximum from 1 over a region list that is never pruned; no stale cache on the expansion path.",
+            "Trusted: clang 14 front end; the positive-orthant domain of cqverif/order.py (sizes, areas, densities and factors are non-negative); the caller's factors are >= 1 (the property's domain). Declined: utilisation cap and rounding-carry arithmetic.",
             "DESIGN.md 2/C18"),
     "C01": ("must-pass-through / dominance analysis of the legalization skeleton, witness-variable provenance of commits, who-may-write, row provenance, derived-state (cache) invalidation analysis",
             "Decides the 'fails loudly / nothing partial / only free, admitted space is consumed' skeleton for every circuit: completeness check last, export after a successful run, commits only of admitted (cell,row) candidates with a space test, "
@@ -83,18 +84,20 @@ CHECKS = {
             "and that the shift model covers every pin. Reports the stale-pin-offset defect of the pinned tree as a known finding.",
             "Trusted: clang 14 front end. Declined: that the shift LP optimum never worsens the value; numeric equality with Circuit::hpwl() (C09).",
             "DESIGN.md 2/C05"),
-    "C06": ("polynomial normal-form comparison of the blend / export / spreading formulas, guard analysis of shortcuts, argument provenance, axis typing, X/Y twin agreement",
+    "C06": ("polynomial normal-form comparison of the blend / export / spreading formulas, guard analysis of shortcuts, argument provenance, axis typing, X/Y twin agreement, cell-conservation analysis of the bin hierarchy (effect summaries of conditions, clear-to-refill reachability)",
             "Decides the 'exports the documented blend, per axis, centre to corner' clause for all weights accepted by the parameter check, the convex-combination form of the spreading inside a bin, "
-            "same-axis clamping of fixed pins, regularisation before solving, and axis consistency of the global placer (326 functions) including X/Y twin agreement.",
+            "same-axis clamping of fixed pins, regularisation before solving, conservation of cells when the bin hierarchy is rebuilt or bins are emptied, and axis consistency of the global placer (326 functions) including X/Y twin agreement.",
             "Trusted: clang 14 front end; name-based axis seeds. Declined: containment and finiteness of solver output; absence of errors (floating-point behaviour).",
             "DESIGN.md 2/C06"),
-    "C12": ("edge-dominance of state mutations by the update flag, reachability analysis of save/restore of popped bounds",
-            "One clause only, decided for every call: a cost prediction (getCost) leaves bounds, constrainingPos_ and cumWidth_ unchanged -- every popped bound is saved and pushed back, committed state is written only when update is true.",
-            "Trusted: clang 14 front end. Declined: order, overlap, containment, optimality and cost exactness (numerical).",
+    "C12": ("edge-dominance of state mutations by the update flag, reachability analysis of save/restore of popped bounds, sign-region consistency of the tie selector, inequality proving of bound positions (order prover), derived-state analysis",
+            "Decided for every call: a cost prediction (getCost) leaves bounds, constrainingPos_ and cumWidth_ unchanged; the final-position choice is consistent with the loop's descent test (ties stay at the last bound passed); "
+            "every new bound is pushed at a position >= begin_; a cached placement is reset by every updating path.",
+            "Trusted: clang 14 front end; asserts of the function are used as stated invariants. Declined: order, overlap, containment, optimality and cost exactness beyond these necessary conditions (numerical).",
             "DESIGN.md 2/C12"),
-    "C16": ("who-may-write, post-dominance pairing of the two allocation representations, reachability analysis of empty-then-refill, loop coverage, X/Y twin agreement",
-            "One thin clause, decided structurally: the cell->bin maps and the bin->cells lists are always updated together and the redistribution paths (reoptimize, rebisect, refine, coarsen) cannot drop a cell.",
-            "Trusted: clang 14 front end. Declined: capacity exactness/aggregation, conservation through the hierarchy index arithmetic, coordinates inside the bin.",
+    "C16": ("who-may-write, post-dominance pairing of the two allocation representations, reachability analysis of empty-then-refill, loop coverage, X/Y twin agreement, index-level discipline and index-origin taint",
+            "Decided structurally: the cell->bin maps and the bin->cells lists are always updated together and the redistribution paths (reoptimize, rebisect, refine, coarsen) can neither drop nor duplicate a cell; "
+            "indices handed to the base grid are translated through the hierarchy limits; no bin index is derived from a coordinate division.",
+            "Trusted: clang 14 front end. Declined: capacity exactness/aggregation beyond the index-origin rule, coordinates inside the bin beyond the level discipline.",
             "DESIGN.md 2/C16"),
 }
 
